@@ -262,7 +262,14 @@ def run_calls_here(calls: List[dict]) -> List[dict]:
     return out
 
 
-def fork_run(calls: List[dict], timeout: float = 60.0) -> List[dict]:
+def _poison_heap():
+    """Fill the small-object heap of this (child) process with 0xFF garbage and release it again: a result that depends on
+    uninitialised memory (e.g. bitarray pad bits moved into the data) then differs from the run with a naturally used heap."""
+    junk = [bytearray(b"\xff" * n) for n in range(1, 600, 3) for _ in range(6)]  # bytes objects and raw byte buffers
+    del junk
+
+
+def fork_run(calls: List[dict], timeout: float = 60.0, poison: bool = False) -> List[dict]:
     """Run ``calls`` in a forked child of this (clean) process and return its observations."""
     r, w = os.pipe()
     sys.stdout.flush()
@@ -276,6 +283,8 @@ def fork_run(calls: List[dict], timeout: float = 60.0) -> List[dict]:
                 dn = os.open(os.devnull, os.O_WRONLY)
                 os.dup2(dn, 2)
             try:
+                if poison:
+                    _poison_heap()
                 payload = {"obs": run_calls_here(calls)}
             except HarnessError as he:
                 payload = {"harness_error": str(he)}
@@ -333,6 +342,9 @@ def fork_run(calls: List[dict], timeout: float = 60.0) -> List[dict]:
 # clock / randomness zygotes (fresh interpreters)
 
 PIN_EPOCHS = (1_600_000_000, 1_600_000_000 + 400 * 86400)  # 2020-09-13 and 400 days later
+
+
+ZYGOTES = ((0, {}), (1, {}), (0, {"PYTHONMALLOC": "debug"}))  # (clock / random-stream index, extra environment)
 
 
 def _patch_clock_and_random(k: int):
@@ -410,18 +422,20 @@ def zygote_main(k: int, catalogue_module: str):
 
 
 class ZygotePair:
-    """Two fresh interpreters with pinned, different clocks and random streams."""
+    """Fresh interpreters (see ZYGOTES): two with pinned, different clocks and random streams, one more with the first clock
+    and a debug allocator."""
 
     def __init__(self, catalogue_module: str):
         self.procs = []
-        env = dict(os.environ)
-        for k in (0, 1):
+        for k, extra in ZYGOTES:
+            env = dict(os.environ)
+            env.update(extra)
             p = subprocess.Popen(
                 [sys.executable, "-c", f"import vp.purity as p; p.zygote_main({k}, {catalogue_module!r})"],
                 stdin=subprocess.PIPE, stdout=subprocess.PIPE, stderr=subprocess.PIPE, cwd=VERIF_DIR, env=env, text=True, bufsize=1,
             )
             self.procs.append(p)
-        for k, p in enumerate(self.procs):
+        for p, (k, _) in zip(self.procs, ZYGOTES):
             line = self._readline(p, 120.0)
             if not line or json.loads(line).get("ready") != k:
                 err = ""
